@@ -527,7 +527,7 @@ def run_check(tier, seed):
                        'before comparing with 1-4 fresh terms; non-trivial = equal or near-equal pair / operation succeeded')
     run.assumptions = ['Python hash values are not modelled: the model gives the hashed tuple (hkey); equal tuples => equal hashes is checked per instance',
                        'beta_norm is modelled with fuel 400; cases where the model runs out of fuel are counted, not compared',
-                       'Term.subst has no denotation theorem (PARTIAL); it is tied by correspondence and by the equation (Lambda x t) u = t[u/x]']
+                       'Term.subst: denotation theorem for the repaired model (closed replacements, typed var_inst) under an arity discipline on matched types; tied by correspondence and by the equation (Lambda x t) u = t[u/x]']
     return run.finish()
 
 
